@@ -13,7 +13,8 @@ let parse_cfg c =
       let vs = next_list c next_bytes in
       let cs = next_list c next_bytes in
       let ss = next_list c next_bytes in
-      { pc_name = name; pc_versions = vs; pc_counters = cs; pc_stacks = ss }) in
+      (* cs = the configured (collapsed) counter names; the model expands them itself *)
+      mk_pconfig name vs cs ss) in
   { cf_goos = goos; cf_goarch = goarch; cf_goversion = gov; cf_programs = progs }
 
 let parse_tree c =
